@@ -295,5 +295,30 @@ func cmdChannel(args map[string]string) {
 		run:  runChanExec,
 		poll: []string{"channel.get."},
 		reps: 3,
+		program: func(b []byte) any {
+			// a behaviour generated by TLC from ChannelGEN.tla: one caller, calls in order
+			var calls []struct {
+				K string `json:"k"`
+			}
+			if err := json.Unmarshal(b, &calls); err != nil {
+				fatalf("bad program %q: %v", b, err)
+			}
+			sc := &CScenario{Profile: "gen", NCtx: 1, PollUs: 100}
+			for _, c := range calls {
+				if c.K == "getpre" {
+					sc.Setup = append([]COp{{K: "cancel", Ctx: 1}}, sc.Setup...)
+					break
+				}
+			}
+			for _, c := range calls {
+				switch c.K {
+				case "getpre":
+					sc.Setup = append(sc.Setup, COp{K: "get", Ctx: 1})
+				default:
+					sc.Setup = append(sc.Setup, COp{K: c.K})
+				}
+			}
+			return sc
+		},
 	}, args)
 }
